@@ -10,7 +10,21 @@ from . import common as cm
 from . import opscfg
 
 ID = 'C14'
-cases, describe, reduce, nontrivial = opscfg.cases, opscfg.describe, opscfg.reduce, opscfg.nontrivial
+describe_base, reduce, nontrivial = opscfg.describe, opscfg.reduce, opscfg.nontrivial
+
+
+def cases(tier, seed):
+    yield from opscfg.cases(tier, seed)
+    # chains deeper than the interpreter's recursion limit (the operation walks them with a work list)
+    for n in (1500, 2500):
+        for card in ((1, 1), (0, 1)):
+            yield ('DC', n, card)
+
+
+def describe(case):
+    if case[0] == 'DC':
+        return 'DC:chain of %d features, cardinality %s' % (case[1], case[2])
+    return describe_base(case)
 
 
 def plan(tier):
@@ -51,7 +65,28 @@ def judge(res, model):
     return out
 
 
+def _deep_chain(case):
+    from flamapy.metamodels.fm_metamodel.models import Feature, FeatureModel, Relation
+    _k, n, card = case
+    feats = [Feature('N%d' % i, []) for i in range(n)]
+    for i in range(n - 1):
+        feats[i].add_relation(Relation(feats[i], [feats[i + 1]], card[0], card[1]))
+    fm = FeatureModel(feats[0], [])
+    engine.tick(n)
+    try:
+        res = [f.name for f in FMCoreFeatures().execute(fm).get_result()]
+    except Exception as exc:  # noqa: BLE001
+        return [Fail('raises:%s' % type(exc).__name__, 'chain of %d features' % n)]
+    want = ['N%d' % i for i in range(n)] if card == (1, 1) else ['N0']
+    if sorted(res) != sorted(want):
+        return [Fail('core-missing' if len(res) < len(want) else 'not-always-selected', {'returned': len(res), 'expected': len(want)})]
+    engine.validated()
+    return []
+
+
 def check(case):
+    if case[0] == 'DC':
+        return _deep_chain(case)
     model = opscfg.resolve(case)
     if case[0] == 'SE':
         return opscfg.edit_history(model, FMCoreFeatures, judge)
@@ -68,6 +103,8 @@ def check(case):
 
 
 def outcome(case):
+    if case[0] == 'DC':
+        return 'deep-chain'
     if case[0] == 'B':
         return 'big'
     if sh.size(case[1]) > 16:
